@@ -16,7 +16,7 @@ PARTIAL = []
 def _jobs(ctx):
     q = ctx.quick()
     n = 30 if q else 400
-    return sc.corpus_job(ctx) + [(f'queue{k}', ['queue', n]) for k in range(6 if q else 12)] + [(f'ship{k}', ['shipped', n]) for k in range(4 if q else 8)] + [('observed', ['monitored', n]), ('pop', ['adddel_ok', n])]
+    return sc.corpus_job(ctx) + [(f'queue{k}', ['queue', n]) for k in range(6 if q else 12)] + [(f'ship{k}', ['shipped', n]) for k in range(4 if q else 8)] + [('observed', ['monitored', n]), ('pop', ['adddel_ok', n]), ('fixrec0', ['fixrec0', n])]
 
 
 def _nontrivial(e):
